@@ -1357,7 +1357,12 @@ func mapLenTerm(ks *Sort, heap, ref string) string {
 func (g *Gen) mapSorts(mt *types.Map) (string, string) {
 	ks, vs := g.sortOf(mt.Key()), g.sortOf(mt.Elem())
 	// the length of a map is a function of ITS key set only: writing another map of the same key type leaves it alone
-	g.declareFun(mapLenFn(ks), fmt.Sprintf("((Array %s Bool)) Int", ks.SMT()))
+	// (and it is never negative: the declared function is clamped)
+	if fn := mapLenFn(ks); !g.declared[fn] {
+		g.declareFun(fn+".raw", fmt.Sprintf("((Array %s Bool)) Int", ks.SMT()))
+		g.declared[fn] = true
+		g.decls = append(g.decls, fmt.Sprintf("(define-fun %s ((m (Array %s Bool))) Int (ite (>= (%s.raw m) 0) (%s.raw m) 0))", fn, ks.SMT(), fn, fn))
+	}
 	return fmt.Sprintf("(Array Int (Array %s Bool))", ks.SMT()), fmt.Sprintf("(Array Int (Array %s %s))", ks.SMT(), vs.SMT())
 }
 
